@@ -4,9 +4,10 @@
    in f' and the only new entries are directories above the links' parent directories.
    make_symlink_in_dir on T is an FP [T] run that ends with T a symlink to the wanted target;
    the step for an automated export either makes the link, removes a stale symlink, or leaves
-   a foreign entry alone.  Under [exports_simple] (every export directive names exactly
-   "$$package_export" or "$$file_export", each at most once) the explicit directives and the
-   spec's [explicit_target] coincide. *)
+   a foreign entry alone.  Under [own_targets] (every expanded export directive of a layer
+   targets one of that layer's two links, however spelled and however often) an entry named by
+   directives ends as a symlink to the source of the last directive naming it, which is a
+   member of the spec's [explicit_targets]. *)
 From LC Require Import Lib.Bytes Lib.Lex Lib.Fields Lib.PathM Gen.Consts
   Model.MountInfo Model.FsTree Model.Kernel Model.Layers Cases.Verdict Cases.LC Cases.C16
   Proofs.MonadP Proofs.C15P Proofs.PathP Proofs.C16FsP Proofs.C16MonadP Proofs.C16FrameP
@@ -14,18 +15,19 @@ From LC Require Import Lib.Bytes Lib.Lex Lib.Fields Lib.PathM Gen.Consts
 Close Scope string_scope.
 Open Scope list_scope.
 
-Definition kP : bytes := bs "$$" ++ bs "package_export".
-Definition kG : bytes := bs "$$" ++ bs "file_export".
-
-Definition exports_simple (x : layer) : bool :=
-  forallb (fun nm => beq (nm_mount nm) kP || beq (nm_mount nm) kG) (l_exports x)
-  && LC.nodup_paths (map nm_mount (l_exports x)).
+(* every expanded export directive of x targets one of x's own two links *)
+Definition own_targets (c : cfgT) (x : layer) : bool :=
+  match expand_config_exports c x with
+  | Some es => forallb (fun xm => beq (x_mount xm) (C16.pkg_link c (l_name x))
+                                  || beq (x_mount xm) (C16.gen_link c (l_name x))) es
+  | None => true
+  end.
 
 Definition links_ok (c : cfgT) (x : layer) (f : fsT) : Prop :=
   C16.link_ok f (C16.pkg_link c (l_name x)) (pathjoin [l_path x; c_binpkg c])
-              (C16.explicit_target c x (bs "package_export")) = true
+              (C16.explicit_targets c x (C16.pkg_link c (l_name x))) = true
   /\ C16.link_ok f (C16.gen_link c (l_name x)) (pathjoin [l_path x; c_gen c])
-              (C16.explicit_target c x (bs "file_export")) = true.
+              (C16.explicit_targets c x (C16.gen_link c (l_name x))) = true.
 
 Lemma memb_in x l : memb x l = true <-> In x l.
 Proof.
@@ -137,10 +139,10 @@ Proof.
     - rewrite (FP_get _ _ _ _ _ H Ha E). reflexivity.
     - rewrite (FP_absent _ _ _ _ H Ha Hd E). reflexivity. }
   rewrite Hex. unfold lstat in *.
-  set (wanted := match expl with Some t => Some t | None => if exists_ f auto then Some auto else None end) in *.
+  set (wanted := match expl with _ :: _ => expl | [] => if exists_ f auto then [auto] else [] end) in *.
   destruct (fs_get f link) as [nd|] eqn:E.
   - rewrite (FP_get _ _ _ _ _ H Hl E). exact Hok.
-  - destruct wanted as [t|]; [discriminate Hok|].
+  - destruct wanted as [|t0 ts]; [|discriminate Hok].
     pose proof (FP_nolink _ _ _ _ H Hl) as Hn. rewrite E in Hn.
     destruct (fs_get f' link) as [[| |t]|]; auto. exfalso. apply (Hn ltac:(discriminate) t). reflexivity.
 Qed.
@@ -245,7 +247,7 @@ Qed.
 Lemma auto_step_post targets auto :
   ~ In T targets -> at_or_under T auto = false ->
   hoareR (fun _ => True) (auto_step e targets (T, auto))
-         (fun _ s => C16.link_ok (fsof s) T auto None = true).
+         (fun _ s => C16.link_ok (fsof s) T auto [] = true).
 Proof.
   intros Hnt Hta. unfold auto_step. cbn [fst snd].
   destruct (memb T targets) eqn:Hm; [apply memb_in in Hm; contradiction|].
@@ -258,7 +260,8 @@ Proof.
     + apply (hoare_and _ _ _ _ _ (msid_post auto)
                (hoare_steps (FP [T]) _ (fun g => exists_ g auto = true) (stepsFP_msid auto) Hpres)).
     + cbv beta. intros s [_ <-]. split; [exact I|exact Hex].
-    + cbv beta. intros _ s [H1 H2]. unfold C16.link_ok, lstat. rewrite H2, H1. apply beq_refl.
+    + cbv beta. intros _ s [H1 H2]. unfold C16.link_ok, lstat. rewrite H2, H1.
+      unfold memb. cbn [existsb]. rewrite beq_refl. reflexivity.
   - destruct (is_symlink f T) eqn:Hs.
     + intros s a s' [_ Hf] Hr. subst f. pose proof (do_op_ret e _ s a s' He Hr) as Hrm. cbn [fs_effect] in Hrm.
       unfold C16.link_ok, exists_, lstat in *.
@@ -277,30 +280,6 @@ Proof.
 Qed.
 End OneLink.
 End Links.
-
-(* ------------------------------------------------------------------ "$$package_export" / "$$file_export" *)
-Lemma adjust_key key cb pre r :
-  span_while is_sigil (bs "$$" ++ key) = (bs "$$", key) ->
-  span_while (fun ch => negb (Ascii.eqb ch sl)) key = (key, []) ->
-  cb key = Some pre -> pathjoin [pre; []] = pre -> pre = sl :: r ->
-  adjust_prefixed (bs "$$" ++ key) cb = Some pre.
-Proof.
-  intros S1 S2 H1 H2 H3. unfold adjust_prefixed. rewrite S1, S2.
-  change (bs "$$" ++ key) with (nb 36 :: nb 36 :: key). cbv iota beta.
-  assert (S3 : beq (bs "$$") (bs "$$") = true) by reflexivity. rewrite S3, H1, H2.
-  change (bs "$$") with [nb 36; nb 36]. cbv iota. rewrite H3, Ascii.eqb_refl. reflexivity.
-Qed.
-Lemma adjust_kP cb pre r :
-  cb (bs "package_export") = Some pre -> pathjoin [pre; []] = pre -> pre = sl :: r ->
-  adjust_prefixed kP cb = Some pre.
-Proof. apply adjust_key; vm_compute; reflexivity. Qed.
-Lemma adjust_kG cb pre r :
-  cb (bs "file_export") = Some pre -> pathjoin [pre; []] = pre -> pre = sl :: r ->
-  adjust_prefixed kG cb = Some pre.
-Proof. apply adjust_key; vm_compute; reflexivity. Qed.
-
-Lemma kG_not_kP : beq kG kP = false.
-Proof. vm_compute. reflexivity. Qed.
 
 Lemma steps_mono (R R' : fsT -> fsT -> Prop) {A} (m : M A) :
   (forall f f', R f f' -> R' f f') -> steps R m -> steps R' m.
@@ -334,14 +313,29 @@ Proof.
     right. destruct (lm_get_in _ _ _ El) as [_ Hn]. rewrite Hn. split; [exact El|discriminate].
 Qed.
 
-Lemma links_ok_static c x x0 f : static x = static x0 -> links_ok c x f -> links_ok c x0 f.
+Lemma expand_static c x x0 : static x = static x0 ->
+  expand_config_exports c x = expand_config_exports c x0.
 Proof.
-  unfold links_ok, C16.explicit_target. intros Hs.
-  rewrite (static_name _ _ Hs), (static_path _ _ Hs), (static_exports _ _ Hs). auto.
+  intros Hs. unfold expand_config_exports.
+  rewrite (static_name _ _ Hs), (static_path _ _ Hs), (static_exports _ _ Hs). reflexivity.
 Qed.
 
-Lemma exports_simple_static x x0 : static x = static x0 -> exports_simple x = exports_simple x0.
-Proof. unfold exports_simple. intros Hs. rewrite (static_exports _ _ Hs). reflexivity. Qed.
+Lemma links_ok_static c x x0 f : static x = static x0 -> links_ok c x f -> links_ok c x0 f.
+Proof.
+  unfold links_ok, C16.explicit_targets. intros Hs. rewrite (expand_static c x x0 Hs).
+  rewrite (static_name _ _ Hs), (static_path _ _ Hs). auto.
+Qed.
+
+Lemma own_targets_static c x x0 : static x = static x0 -> own_targets c x = own_targets c x0.
+Proof.
+  unfold own_targets. intros Hs. rewrite (expand_static c x x0 Hs), (static_name _ _ Hs). reflexivity.
+Qed.
+
+Lemma filter_none {A} (p : A -> bool) l : (forall a, In a l -> p a = false) -> filter p l = [].
+Proof.
+  induction l as [|a r IH]; intros H; cbn [filter]; [reflexivity|].
+  rewrite (H a (or_introl eq_refl)). apply IH. intros b Hb. apply H. now right.
+Qed.
 
 Lemma in_map_static x l l0 : map static l = map static l0 -> In x l -> exists x0, In x0 l0 /\ static x0 = static x.
 Proof.
@@ -364,8 +358,6 @@ Definition aus (n : bytes) : list bytes := [autoP n; autoG n].
 (* the configuration facts (discharged in C16P from decidable checks) *)
 Hypothesis H_dir : forall n, names_ok n -> forall T, In T (lks n) ->
   exists cs, Forall PathM.plain cs /\ pathdir T = slcat cs.
-Hypothesis H_abs : forall n, names_ok n -> forall T, In T (lks n) ->
-  pathjoin [T; []] = T /\ exists r, T = sl :: r.
 Hypothesis H_PG : forall n, names_ok n ->
   at_or_under (Pn n) (Gn n) = false /\ at_or_under (Gn n) (Pn n) = false.
 Hypothesis H_diff : forall n m, names_ok n -> names_ok m -> n <> m ->
@@ -378,15 +370,14 @@ Section Layer.
 Variable x : layer.
 Hypothesis Hname : names_ok (l_name x).
 Hypothesis Hpath : l_path x = layer_path c (l_name x).
-Hypothesis Hsimple : exports_simple x = true.
+Variable es : list xmount.
+Hypothesis Hexp : expand_config_exports c x = Some es.
+Hypothesis Hown : forall xm, In xm es -> In (x_mount xm) (lks (l_name x)).
 Notation n := (l_name x).
 Notation ap := (pathjoin [l_path x; c_binpkg c]).
 Notation ag := (pathjoin [l_path x; c_gen c]).
+Notation msid_of := (fun xm : xmount => make_symlink_in_dir e (x_source xm) (x_mount xm)).
 
-Definition Fx (nm : nmount) : xmount :=
-  MkX (if beq (nm_mount nm) kP then Pn n else Gn n)
-      (pathjoin [l_path x; c_buildroot c; nm_source nm]) (nm_fstype nm) (nm_mount nm).
-Definition es : list xmount := map Fx (l_exports x).
 Definition targets : list bytes := map x_mount es.
 
 Lemma ap_auto : ap = autoP n.
@@ -394,124 +385,79 @@ Proof. unfold autoP. rewrite Hpath. reflexivity. Qed.
 Lemma ag_auto : ag = autoG n.
 Proof. unfold autoG. rewrite Hpath. reflexivity. Qed.
 
-Lemma PG_neq : Pn n <> Gn n.
+Lemma lks_apart T T' : In T (lks n) -> In T' (lks n) -> T <> T' -> at_or_under T' T = false.
 Proof.
-  intros E0. destruct (H_PG n Hname) as [H _]. rewrite <- E0, at_or_under_refl in H. discriminate.
+  intros HT HT' Hne. destruct (H_PG n Hname) as [PG GP].
+  destruct HT as [<-|[<-|[]]], HT' as [<-|[<-|[]]]; try congruence; assumption.
 Qed.
 
-Lemma keys : forall nm, In nm (l_exports x) -> nm_mount nm = kP \/ nm_mount nm = kG.
+(* the spec's explicit_targets against the expanded directives *)
+Lemma explicit_eq T :
+  C16.explicit_targets c x T = map x_source (filter (fun xm => beq (x_mount xm) T) es).
+Proof. unfold C16.explicit_targets. rewrite Hexp. reflexivity. Qed.
+
+Lemma explicit_none T : ~ In T targets -> C16.explicit_targets c x T = [].
 Proof.
-  unfold exports_simple in Hsimple. apply andb_true_iff in Hsimple as [H _].
-  rewrite forallb_forall in H. intros nm Hnm. specialize (H nm Hnm).
-  apply orb_true_iff in H as [H|H]; apply beq_eq in H; auto.
-Qed.
-Lemma exports_nodup : NoDup (map nm_mount (l_exports x)).
-Proof.
-  unfold exports_simple in Hsimple. apply andb_true_iff in Hsimple as [_ H].
-  apply nodup_paths_NoDup, H.
+  intros H. rewrite explicit_eq, filter_none; [reflexivity|]. intros xm Hxm.
+  apply beq_false. intros E0. apply H. rewrite <- E0. apply in_map, Hxm.
 Qed.
 
-Lemma expand_simple : expand_config_exports c x = Some es.
+Lemma explicit_in xm : In xm es ->
+  exists y ys, C16.explicit_targets c x (x_mount xm) = y :: ys /\ memb (x_source xm) (y :: ys) = true.
 Proof.
-  unfold expand_config_exports, es. pose proof keys as Hk. revert Hk.
-  generalize (l_exports x) as l. induction l as [|nm r IH]; intros Hk; [reflexivity|].
-  cbn [map_opt map]. rewrite IH by (intros nm' H'; apply Hk; now right).
-  destruct (H_abs n Hname (Pn n) (or_introl eq_refl)) as [HP1 [rP HP2]].
-  destruct (H_abs n Hname (Gn n) (or_intror (or_introl eq_refl))) as [HG1 [rG HG2]].
-  destruct (Hk nm (or_introl eq_refl)) as [Ek|Ek]; unfold Fx; rewrite Ek.
-  - rewrite (adjust_kP _ (Pn n) rP); [rewrite beq_refl; reflexivity|reflexivity|exact HP1|exact HP2].
-  - rewrite (adjust_kG _ (Gn n) rG); [rewrite kG_not_kP; reflexivity|reflexivity|exact HG1|exact HG2].
+  intros Hxm. rewrite explicit_eq.
+  assert (Hin : In (x_source xm) (map x_source (filter (fun ym => beq (x_mount ym) (x_mount xm)) es))).
+  { apply in_map, filter_In. split; [exact Hxm|apply beq_refl]. }
+  destruct (map x_source _) as [|y ys]; [destruct Hin|].
+  exists y, ys. split; [reflexivity|]. apply memb_in, Hin.
 Qed.
 
-Lemma es_targets xm : In xm es -> x_mount xm = Pn n \/ x_mount xm = Gn n.
+(* phase 1: every entry named by a directive ends as a symlink to the source of one of the
+   directives naming it (the last one) *)
+Lemma phase1_post : forall l, (forall xm, In xm l -> In (x_mount xm) (lks n)) ->
+  hoareR (fun _ => True) (mapM_ msid_of l)
+         (fun _ s => forall T, In T (map x_mount l) ->
+            exists xm, In xm l /\ x_mount xm = T /\ fs_get (fsof s) T = Some (Link (x_source xm))).
 Proof.
-  unfold es. intros H. apply in_map_iff in H as (nm & <- & _). unfold Fx. cbn [x_mount].
-  destruct (beq (nm_mount nm) kP); auto.
-Qed.
-Lemma es_in_lks xm : In xm es -> In (x_mount xm) (lks n).
-Proof. intros H. destruct (es_targets xm H) as [-> | ->]; [now left|right; now left]. Qed.
-
-Lemma es_inj xm ym : In xm es -> In ym es -> x_mount xm = x_mount ym -> xm = ym.
-Proof.
-  unfold es. intros Hx Hy E0. apply in_map_iff in Hx as (a & <- & Ha). apply in_map_iff in Hy as (b & <- & Hb).
-  f_equal. apply (NoDup_map_inj nm_mount _ exports_nodup a b Ha Hb).
-  unfold Fx in E0. cbn [x_mount] in E0.
-  destruct (keys a Ha) as [Ea|Ea], (keys b Hb) as [Eb|Eb]; rewrite Ea, Eb in *; try reflexivity; exfalso.
-  - rewrite beq_refl, kG_not_kP in E0. exact (PG_neq E0).
-  - rewrite beq_refl, kG_not_kP in E0. exact (PG_neq (eq_sym E0)).
-Qed.
-
-(* the spec's explicit_target against the expanded directives *)
-Lemma explicit_P_some t : C16.explicit_target c x (bs "package_export") = Some t ->
-  exists xm, In xm es /\ x_mount xm = Pn n /\ x_source xm = t.
-Proof.
-  unfold C16.explicit_target. fold kP.
-  destruct (filter (fun nm => beq (nm_mount nm) kP) (l_exports x)) as [|nm r] eqn:Ef; [discriminate|].
-  intros H. injection H as <-.
-  assert (Hin : In nm (filter (fun nm => beq (nm_mount nm) kP) (l_exports x))) by (rewrite Ef; now left).
-  apply filter_In in Hin as [Hin Hk]. exists (Fx nm). split; [apply in_map, Hin|].
-  unfold Fx. cbn [x_mount x_source]. rewrite Hk. auto.
-Qed.
-Lemma explicit_P_none : C16.explicit_target c x (bs "package_export") = None -> ~ In (Pn n) targets.
-Proof.
-  unfold C16.explicit_target. fold kP.
-  destruct (filter (fun nm => beq (nm_mount nm) kP) (l_exports x)) as [|nm r] eqn:Ef; [|discriminate].
-  intros _ Hin. unfold targets, es in Hin. rewrite map_map in Hin. apply in_map_iff in Hin as (nm & Hm & Hnm).
-  unfold Fx in Hm. cbn [x_mount] in Hm. destruct (beq (nm_mount nm) kP) eqn:Ek.
-  - assert (Hf : In nm (filter (fun nm => beq (nm_mount nm) kP) (l_exports x))) by (apply filter_In; auto).
-    rewrite Ef in Hf. destruct Hf.
-  - exact (PG_neq (eq_sym Hm)).
-Qed.
-Lemma explicit_G_some t : C16.explicit_target c x (bs "file_export") = Some t ->
-  exists xm, In xm es /\ x_mount xm = Gn n /\ x_source xm = t.
-Proof.
-  unfold C16.explicit_target. fold kG.
-  destruct (filter (fun nm => beq (nm_mount nm) kG) (l_exports x)) as [|nm r] eqn:Ef; [discriminate|].
-  intros H. injection H as <-.
-  assert (Hin : In nm (filter (fun nm => beq (nm_mount nm) kG) (l_exports x))) by (rewrite Ef; now left).
-  apply filter_In in Hin as [Hin Hk]. exists (Fx nm). split; [apply in_map, Hin|].
-  unfold Fx. cbn [x_mount x_source]. apply beq_eq in Hk. rewrite Hk, kG_not_kP. auto.
-Qed.
-Lemma explicit_G_none : C16.explicit_target c x (bs "file_export") = None -> ~ In (Gn n) targets.
-Proof.
-  unfold C16.explicit_target. fold kG.
-  destruct (filter (fun nm => beq (nm_mount nm) kG) (l_exports x)) as [|nm r] eqn:Ef; [|discriminate].
-  intros _ Hin. unfold targets, es in Hin. rewrite map_map in Hin. apply in_map_iff in Hin as (nm & Hm & Hnm).
-  unfold Fx in Hm. cbn [x_mount] in Hm. destruct (keys nm Hnm) as [Ek|Ek].
-  - rewrite Ek, beq_refl in Hm. exact (PG_neq Hm).
-  - assert (Hf : In nm (filter (fun nm => beq (nm_mount nm) kG) (l_exports x))).
-    { apply filter_In. split; [exact Hnm|]. rewrite Ek. apply beq_refl. }
-    rewrite Ef in Hf. destruct Hf.
+  induction l as [|xm0 r IH]; intros Hl; cbn [mapM_ map].
+  - apply hoare_ret'. intros s _ T [].
+  - eapply hoare_bind; [apply (msid_post e He)|]. intros u. cbv beta.
+    assert (Hr : forall xm, In xm r -> In (x_mount xm) (lks n)) by (intros xm Hxm; apply Hl; now right).
+    assert (Hkeep : hoareR (fun s => fs_get (fsof s) (x_mount xm0) = Some (Link (x_source xm0)))
+                           (mapM_ msid_of r)
+                           (fun _ s => ~ In (x_mount xm0) (map x_mount r) ->
+                                       fs_get (fsof s) (x_mount xm0) = Some (Link (x_source xm0)))).
+    { destruct (memb (x_mount xm0) (map x_mount r)) eqn:Em.
+      - apply memb_in in Em. eapply hoare_conseq; [apply (hoare_true (fun _ => True))|intros s _; exact I|].
+        cbv beta. intros u' s _ Hn. contradiction.
+      - assert (Hn : ~ In (x_mount xm0) (map x_mount r)).
+        { intros Hin. apply memb_in in Hin. congruence. }
+        eapply hoare_conseq; [apply hoare_mapM_inv|cbv beta; intros s Hs; exact Hs|cbv beta; auto].
+        intros y Hy. destruct (H_dir n Hname _ (Hr y Hy)) as (cs & Hcs & Hd).
+        apply (hoare_steps (FP [x_mount y]) _
+                 (fun g => fs_get g (x_mount xm0) = Some (Link (x_source xm0)))).
+        + eapply stepsFP_msid; eauto.
+        + intros f f' Hfp Hg. apply (FP_get _ _ _ _ _ Hfp); [|exact Hg]. intros t [<-|[]].
+          apply lks_apart; [apply Hl; now left|apply Hr, Hy|].
+          intros E0. apply Hn. rewrite E0. apply in_map, Hy. }
+    eapply hoare_conseq.
+    + apply (hoare_and _ _ _ _ _ Hkeep (IH Hr)).
+    + cbv beta. intros s H. split; [exact H|exact I].
+    + cbv beta. intros _ s [H1 H2] T HT.
+      destruct (memb T (map x_mount r)) eqn:Em.
+      * apply memb_in in Em. destruct (H2 T Em) as (xm & Hxm & Hm & Hg).
+        exists xm. split; [now right|auto].
+      * destruct HT as [<-|HT]; [|apply memb_in in HT; congruence].
+        exists xm0. split; [now left|]. split; [reflexivity|]. apply H1.
+        intros Hin. apply memb_in in Hin. congruence.
 Qed.
 
-(* phase 1: every explicit directive ends as a symlink to its source *)
-Lemma phase1_post :
-  hoareR (fun _ => True) (mapM_ (fun xm => make_symlink_in_dir e (x_source xm) (x_mount xm)) es)
-         (fun _ s => forall xm, In xm es -> fs_get (fsof s) (x_mount xm) = Some (Link (x_source xm))).
-Proof.
-  apply (hoare_mapM_each (fun xm s => fs_get (fsof s) (x_mount xm) = Some (Link (x_source xm)))).
-  - intros xm Hxm. destruct (H_dir n Hname _ (es_in_lks xm Hxm)) as (cs & Hcs & Hd).
-    apply (msid_post e He).
-  - intros xm ym Hxm Hym. destruct (H_dir n Hname _ (es_in_lks ym Hym)) as (cs & Hcs & Hd).
-    destruct (beq (x_mount xm) (x_mount ym)) eqn:Eb.
-    + apply beq_eq in Eb. rewrite (es_inj xm ym Hxm Hym Eb).
-      eapply hoare_conseq; [apply (msid_post e He)|cbv beta; auto|cbv beta; auto].
-    + apply (hoare_steps (FP [x_mount ym]) _
-               (fun g => fs_get g (x_mount xm) = Some (Link (x_source xm)))).
-      * eapply stepsFP_msid; eauto.
-      * intros f f' Hfp Hg. apply (FP_get _ _ _ _ _ Hfp); [|exact Hg]. intros t [<-|[]].
-        apply beq_false in Eb. destruct (H_PG n Hname) as [PG GP].
-        destruct (es_targets xm Hxm) as [Ex|Ex], (es_targets ym Hym) as [Ey|Ey]; rewrite Ex, Ey in *;
-          try congruence; assumption.
-Qed.
-
-Lemma stepsFP_phase1 :
-  steps (FP (lks n)) (mapM_ (fun xm => make_symlink_in_dir e (x_source xm) (x_mount xm)) es).
+Lemma stepsFP_phase1 : steps (FP (lks n)) (mapM_ msid_of es).
 Proof.
   apply (steps_mapM_ _ (FP_refl (lks n)) (FP_trans (lks n))). intros xm Hxm.
-  destruct (H_dir n Hname _ (es_in_lks xm Hxm)) as (cs & Hcs & Hd).
+  destruct (H_dir n Hname _ (Hown xm Hxm)) as (cs & Hcs & Hd).
   apply (steps_mono (FP [x_mount xm])); [|eapply stepsFP_msid; eauto].
-  intros f f'. apply FP_mono. intros t [<-|[]]. apply es_in_lks, Hxm.
+  intros f f'. apply FP_mono. intros t [<-|[]]. apply Hown, Hxm.
 Qed.
 
 (* phase 2, one step, seen from a link T *)
@@ -529,68 +475,93 @@ Lemma phase2_unfold :
   (auto_step e targets (Pn n, ap) ;;; (auto_step e targets (Gn n, ag) ;;; ret tt)).
 Proof. reflexivity. Qed.
 
-Lemma auto_facts T T' : In T (lks n) -> In T' (lks n) -> forall a, In a [ap; ag] ->
+Lemma auto_facts T' : In T' (lks n) -> forall a, In a [ap; ag] ->
   at_or_under T' a = false /\ at_or_under a (pathdir T') = false.
 Proof.
-  intros _ HT' a Ha. apply (H_auto n n Hname Hname T' HT').
+  intros HT' a Ha. apply (H_auto n n Hname Hname T' HT').
   rewrite ap_auto, ag_auto in Ha. exact Ha.
+Qed.
+
+(* an entry named by a directive: symlink to one of the named directories *)
+Definition named_ok (T : bytes) (f : fsT) : Prop :=
+  exists xm, In xm es /\ x_mount xm = T /\ fs_get f T = Some (Link (x_source xm)).
+
+Lemma named_link_ok T a f : named_ok T f -> C16.link_ok f T a (C16.explicit_targets c x T) = true.
+Proof.
+  intros (xm & Hxm & Hm & Hg). destruct (explicit_in xm Hxm) as (y & ys & He1 & He2).
+  rewrite Hm in He1. rewrite He1. unfold C16.link_ok, lstat. rewrite Hg. exact He2.
+Qed.
+
+Lemma named_FP T T' f f' : In T (lks n) -> In T' (lks n) -> T <> T' ->
+  FP [T'] f f' -> named_ok T f -> named_ok T f'.
+Proof.
+  intros HT HT' Hne Hfp (xm & Hxm & Hm & Hg). exists xm. split; [exact Hxm|]. split; [exact Hm|].
+  apply (FP_get _ _ _ _ _ Hfp); [|exact Hg]. intros t [<-|[]]. apply lks_apart; assumption.
+Qed.
+
+Lemma phase1_named T : In T targets -> hoareR (fun _ => True) (mapM_ msid_of es) (fun _ s => named_ok T (fsof s)).
+Proof.
+  intros HT. eapply hoare_conseq; [apply (phase1_post es Hown)|cbv beta; auto|].
+  cbv beta. intros _ s H. exact (H T HT).
+Qed.
+
+Lemma PG_neq : Pn n <> Gn n.
+Proof.
+  intros E0. destruct (H_PG n Hname) as [H _]. rewrite <- E0, at_or_under_refl in H. discriminate.
 Qed.
 
 Lemma mes_pkg :
   hoareR (fun _ => True) (make_export_symlinks e c x)
-         (fun _ s => C16.link_ok (fsof s) (Pn n) ap (C16.explicit_target c x (bs "package_export")) = true).
+         (fun _ s => C16.link_ok (fsof s) (Pn n) ap (C16.explicit_targets c x (Pn n)) = true).
 Proof.
-  rewrite mes_unfold, expand_simple. fold targets. rewrite phase2_unfold.
+  rewrite mes_unfold, Hexp. fold targets. rewrite phase2_unfold.
   destruct (H_PG n Hname) as [PG GP].
   assert (HPin : In (Pn n) (lks n)) by now left.
   assert (HGin : In (Gn n) (lks n)) by (right; now left).
-  destruct (C16.explicit_target c x (bs "package_export")) as [t|] eqn:Eet.
-  - destruct (explicit_P_some t Eet) as (xm & Hxm & Hm & Hs).
-    eapply hoare_bind.
-    { eapply hoare_conseq; [apply phase1_post|cbv beta; auto|].
-      cbv beta. intros u' s H. specialize (H xm Hxm). rewrite Hm, Hs in H. exact H. }
-    intros u. cbv beta. rewrite auto_self_ret by (rewrite <- Hm; apply in_map, Hxm).
+  destruct (memb (Pn n) targets) eqn:Em.
+  - apply memb_in in Em.
+    eapply hoare_bind; [apply (phase1_named _ Em)|]. intros u. cbv beta.
+    rewrite auto_self_ret by exact Em.
     eapply hoare_bind; [apply hoare_ret|]. intros u0. cbv beta.
     eapply hoare_bind; [|intros u1; apply hoare_ret'].
-    + apply (hoare_steps (FP [Gn n]) _ (fun g => fs_get g (Pn n) = Some (Link t))); [apply stepsFP_auto, HGin|].
-      intros f f' Hfp Hg. apply (FP_get _ _ _ _ _ Hfp); [|exact Hg]. intros t0 [<-|[]]. exact GP.
-    + cbv beta. intros s Hg. unfold C16.link_ok, lstat. rewrite Hg. apply beq_refl.
-  - pose proof (explicit_P_none Eet) as Hnt.
+    + apply (hoare_steps (FP [Gn n]) _ (named_ok (Pn n))); [apply stepsFP_auto, HGin|].
+      intros f f'. apply named_FP; auto. apply PG_neq.
+    + cbv beta. intros s. apply named_link_ok.
+  - assert (Hnt : ~ In (Pn n) targets) by (intros Hin; apply memb_in in Hin; congruence).
+    rewrite (explicit_none _ Hnt).
     eapply hoare_bind; [apply hoare_true|]. intros u. cbv beta.
     destruct (H_dir n Hname _ HPin) as (cs & Hcs & Hd).
-    destruct (auto_facts _ _ HPin HPin ap (or_introl eq_refl)) as [A1 A2].
-    destruct (auto_facts _ _ HPin HGin ap (or_introl eq_refl)) as [A3 A4].
+    destruct (auto_facts _ HPin ap (or_introl eq_refl)) as [A1 A2].
+    destruct (auto_facts _ HGin ap (or_introl eq_refl)) as [A3 A4].
     eapply hoare_bind; [eapply auto_step_post; eauto|].
     intros u0. cbv beta. eapply hoare_bind; [|intros u1; apply hoare_ret].
-    apply (hoare_steps (FP [Gn n]) _ (fun g => C16.link_ok g (Pn n) ap None = true)); [apply stepsFP_auto, HGin|].
+    apply (hoare_steps (FP [Gn n]) _ (fun g => C16.link_ok g (Pn n) ap [] = true)); [apply stepsFP_auto, HGin|].
     intros f f' Hfp. apply (link_ok_FP _ _ _ _ _ _ Hfp); intros t0 [<-|[]]; assumption.
 Qed.
 
 Lemma mes_gen :
   hoareR (fun _ => True) (make_export_symlinks e c x)
-         (fun _ s => C16.link_ok (fsof s) (Gn n) ag (C16.explicit_target c x (bs "file_export")) = true).
+         (fun _ s => C16.link_ok (fsof s) (Gn n) ag (C16.explicit_targets c x (Gn n)) = true).
 Proof.
-  rewrite mes_unfold, expand_simple. fold targets. rewrite phase2_unfold.
+  rewrite mes_unfold, Hexp. fold targets. rewrite phase2_unfold.
   destruct (H_PG n Hname) as [PG GP].
   assert (HPin : In (Pn n) (lks n)) by now left.
   assert (HGin : In (Gn n) (lks n)) by (right; now left).
-  destruct (C16.explicit_target c x (bs "file_export")) as [t|] eqn:Eet.
-  - destruct (explicit_G_some t Eet) as (xm & Hxm & Hm & Hs).
+  destruct (memb (Gn n) targets) eqn:Em.
+  - apply memb_in in Em.
+    eapply hoare_bind; [apply (phase1_named _ Em)|]. intros u. cbv beta.
     eapply hoare_bind.
-    { eapply hoare_conseq; [apply phase1_post|cbv beta; auto|].
-      cbv beta. intros u' s H. specialize (H xm Hxm). rewrite Hm, Hs in H. exact H. }
-    intros u. cbv beta.
-    eapply hoare_bind.
-    { apply (hoare_steps (FP [Pn n]) _ (fun g => fs_get g (Gn n) = Some (Link t))); [apply stepsFP_auto, HPin|].
-      intros f f' Hfp Hg. apply (FP_get _ _ _ _ _ Hfp); [|exact Hg]. intros t0 [<-|[]]. exact PG. }
-    intros u0. cbv beta. rewrite auto_self_ret by (rewrite <- Hm; apply in_map, Hxm).
+    { apply (hoare_steps (FP [Pn n]) _ (named_ok (Gn n))); [apply stepsFP_auto, HPin|].
+      intros f f'. apply named_FP; auto. intros E0. apply PG_neq. symmetry. exact E0. }
+    intros u0. cbv beta. rewrite auto_self_ret by exact Em.
     eapply hoare_bind; [apply hoare_ret|]. intros u1. cbv beta. apply hoare_ret'.
-    intros s Hg. unfold C16.link_ok, lstat. rewrite Hg. apply beq_refl.
-  - pose proof (explicit_G_none Eet) as Hnt.
+    intros s. apply named_link_ok.
+  - assert (Hnt : ~ In (Gn n) targets) by (intros Hin; apply memb_in in Hin; congruence).
+    rewrite (explicit_none _ Hnt).
     eapply hoare_bind; [apply hoare_true|]. intros u. cbv beta.
     eapply hoare_bind; [apply hoare_true|]. intros u0. cbv beta.
     destruct (H_dir n Hname _ HGin) as (cs & Hcs & Hd).
-    destruct (auto_facts _ _ HGin HGin ag (or_intror (or_introl eq_refl))) as [A1 A2].
+    destruct (auto_facts _ HGin ag (or_intror (or_introl eq_refl))) as [A1 A2].
     eapply hoare_bind; [eapply auto_step_post; eauto|].
     intros u1. cbv beta. apply hoare_ret.
 Qed.
@@ -603,7 +574,7 @@ Qed.
 
 Lemma stepsFP_mes : steps (FP (lks n)) (make_export_symlinks e c x).
 Proof.
-  rewrite mes_unfold, expand_simple. fold targets. rewrite phase2_unfold.
+  rewrite mes_unfold, Hexp. fold targets. rewrite phase2_unfold.
   assert (HPin : In (Pn n) (lks n)) by now left.
   assert (HGin : In (Gn n) (lks n)) by (right; now left).
   apply (steps_bind _ (FP_trans (lks n))); [apply stepsFP_phase1|intros _].
@@ -635,28 +606,53 @@ Proof.
     + apply (H_auto (l_name x) (l_name y) Hx Hy t Ht). rewrite (ag_auto x Hpx). right. now left.
 Qed.
 
+Lemma own_targets_spec x es0 : own_targets c x = true -> expand_config_exports c x = Some es0 ->
+  forall xm, In xm es0 -> In (x_mount xm) (lks (l_name x)).
+Proof.
+  unfold own_targets. intros H Hexp xm Hxm. rewrite Hexp in H. rewrite forallb_forall in H.
+  specialize (H xm Hxm). apply orb_true_iff in H as [H|H]; apply beq_eq in H; rewrite H;
+    [now left|right; now left].
+Qed.
+
+Lemma mes_links_gen x : names_ok (l_name x) -> l_path x = layer_path c (l_name x) ->
+  own_targets c x = true ->
+  hoareR (fun _ => True) (make_export_symlinks e c x) (fun _ s => links_ok c x (fsof s)).
+Proof.
+  intros Hn Hp Ho. destruct (expand_config_exports c x) as [es0|] eqn:Hexp.
+  - eapply mes_links; try eassumption. eapply own_targets_spec; eassumption.
+  - rewrite mes_unfold, Hexp. apply hoare_fail.
+Qed.
+
+Lemma stepsFP_mes_gen x : names_ok (l_name x) -> l_path x = layer_path c (l_name x) ->
+  own_targets c x = true -> steps (FP (lks (l_name x))) (make_export_symlinks e c x).
+Proof.
+  intros Hn Hp Ho. destruct (expand_config_exports c x) as [es0|] eqn:Hexp.
+  - eapply stepsFP_mes; try eassumption. eapply own_targets_spec; eassumption.
+  - rewrite mes_unfold, Hexp. apply steps_fail, FP_refl.
+Qed.
+
 Definition chain_layer_ok (m : lmap) (x : layer) : Prop :=
   lm_get m (l_name x) = Some x /\ names_ok (l_name x) /\ l_path x = layer_path c (l_name x)
-  /\ exports_simple x = true.
+  /\ own_targets c x = true.
 
 Lemma chain_links m ch : (forall x, In x ch -> chain_layer_ok m x) ->
   hoareR (fun _ => True) (mapM_ (fun x => make_export_symlinks e c x) ch)
          (fun _ s => forall x, In x ch -> links_ok c x (fsof s)).
 Proof.
   intros Hch. apply (hoare_mapM_each (fun x s => links_ok c x (fsof s))).
-  - intros x Hx. destruct (Hch x Hx) as (_ & H1 & H2 & H3). apply mes_links; assumption.
+  - intros x Hx. destruct (Hch x Hx) as (_ & H1 & H2 & H3). apply mes_links_gen; assumption.
   - intros x y Hx Hy. destruct (Hch x Hx) as (Gx & X1 & X2 & X3). destruct (Hch y Hy) as (Gy & Y1 & Y2 & Y3).
     destruct (beq (l_name x) (l_name y)) eqn:Eb.
     + apply beq_eq in Eb. rewrite Eb in Gx. rewrite Gy in Gx. injection Gx as <-.
-      eapply hoare_conseq; [apply (mes_links y Y1 Y2 Y3)|cbv beta; auto|cbv beta; auto].
+      eapply hoare_conseq; [apply (mes_links_gen y Y1 Y2 Y3)|cbv beta; auto|cbv beta; auto].
     + apply beq_false in Eb.
-      apply (hoare_steps (FP (lks (l_name y))) _ (links_ok c x)); [apply stepsFP_mes; assumption|].
+      apply (hoare_steps (FP (lks (l_name y))) _ (links_ok c x)); [apply stepsFP_mes_gen; assumption|].
       intros f f'. apply links_FP_other; assumption.
 Qed.
 
 Lemma mount_layer_post ld f0 n :
   map static (ld_map ld) = map static (read_layer_files c f0) -> ld_ok c ld ->
-  (forall x0, In x0 (LCS.chain c f0 n) -> exports_simple x0 = true) ->
+  (forall x0, In x0 (LCS.chain c f0 n) -> own_targets c x0 = true) ->
   hoareR (fun _ => True) (mount_layer e c ld n)
          (fun _ s => forall x0, In x0 (LCS.chain c f0 n) -> links_ok c x0 (fsof s)).
 Proof.
@@ -676,14 +672,14 @@ Proof.
     destruct (lm_get_in _ _ _ Hg1) as [Hin _]. destruct (Hld x Hin) as (Hleg & Hpath & _).
     split; [exact Hg1|]. split; [split; assumption|]. split; [exact Hpath|].
     destruct (in_map_static x ch ch0 Hst Hx) as (x0 & Hx0 & Hs).
-    rewrite <- (exports_simple_static x0 x Hs). apply Hsim, Hx0.
+    rewrite <- (own_targets_static c x0 x Hs). apply Hsim, Hx0.
   - intros u0. cbv beta. apply hoare_ret'. intros s H x0 Hx0.
     destruct (in_map_static x0 ch0 ch (eq_sym Hst) Hx0) as (x & Hx & Hs).
     apply (links_ok_static c x x0 _ Hs). apply H, Hx.
 Qed.
 
 Lemma run_mount_post um n f0 :
-  (forall x0, In x0 (LCS.chain c f0 n) -> exports_simple x0 = true) ->
+  (forall x0, In x0 (LCS.chain c f0 n) -> own_targets c x0 = true) ->
   hoareR (fun s => fsof s = f0) (run_command e c um (CMount n))
          (fun _ s => forall x0, In x0 (LCS.chain c f0 n) -> links_ok c x0 (fsof s)).
 Proof.
